@@ -43,7 +43,20 @@ Inductive fstep :=
 | FGet (i : Z) (o : res Z)
 | FIn (x : Z) (tab : list (Z * bool)) (o : bool)
 | FAdd (k : kind) (other : list shape) (o : out)
-| FBounds (o : res box) (span : res Q).
+| FBounds (o : res box) (span : res Q)
+(* derived attributes read on a RESULT (of a filter, +, a time slice, a chained filter) whose
+   members are the shapes named [ids] (members of the case's collection or [extra]):
+   result.bounds and len(result) *)
+| FRes (ids : list Z) (extra : list shape) (rb : res box) (n : Z).
+
+Fixpoint pick (ids : list Z) (pool : list shape) : list shape :=
+  match ids with
+  | [] => []
+  | i :: ids' => match find (fun x => sid x =? i) pool with
+                 | Some x => x :: pick ids' pool
+                 | None => pick ids' pool
+                 end
+  end.
 
 Definition by_tab (tab : list (Z * bool)) (_ : unit) (x : shape) : bool := lookup_b tab (sid x).
 
@@ -67,6 +80,10 @@ Definition check_step (c : coll) (s : fstep) : bool :=
       end
   | FBounds o span =>
       res_eqb box_eqb (coll_bounds c) o && res_eqb Qeq_bool (coll_geospan c) span
+  | FRes ids extra rb n =>
+      let ms := pick ids (members c ++ extra) in
+      (Z.of_nat (length ms) =? n) && (Z.of_nat (length ids) =? n) &&
+      res_eqb box_eqb (coll_bounds (mkcoll FC ms)) rb
   end.
 
 Record fcase := FK { f_kind : kind; f_shapes : list shape; f_first : out; f_steps : list fstep }.
